@@ -3,7 +3,7 @@
 into /verif/seeded/<name>/ (patch.diff, the demonstration, meta.json with what was confirmed and which checks catch it)."""
 import json, os, shutil, sys
 sid, name, caught, notes = sys.argv[1:5]
-src = f'/tmp/seeds/{sid}'
+src = f'{os.environ.get("SEEDROOT", "/tmp/seeds")}/{sid}'
 dst = f'/verif/seeded/{name}'
 os.makedirs(dst, exist_ok=True)
 for f in os.listdir(src):
